@@ -5,14 +5,16 @@ K_MODCMP = {"unit": "modcmp", "inject": "elvis-core/src/protocols/tcp/tcb/modula
 
 K_SUBNET = {"unit": "subnet", "inject": "elvis-core/src/protocols/arp/subnetting.rs", "crate": "elvis-core"}
 
+K_IPTABLE = {"unit": "iptable", "inject": "elvis-core/src/ip_table.rs", "crate": "elvis-core"}
+
 PROPS = {
     "C09": {
-        "units": ["subnet"],
-        "kani": [K_SUBNET],
+        "units": ["subnet", "iptable"],
+        "kani": [K_SUBNET, K_IPTABLE],
         "level": "proof",
         "technique": "Verus contracts (bit-vector) on the extracted subnetting.rs / ipv4_address.rs / ip_table.rs functions + Kani full-domain harnesses on the real crate",
-        "level_text": "Mask/network arithmetic: every function of Ipv4Mask / Ipv4Net / Ipv4Address carries a postcondition against the interval [id, broadcast] semantics, discharged by Verus for all inputs and re-proved by loop-free Kani harnesses on the compiled crate.",
-        "level_note": "Trusted: Verus/Z3, Kani/CBMC; assumed specs of u32::{to,from}_be_bytes, count_ones, Result::or, RangeInclusive::{start,end,==}, derive(PartialEq/Ord) on the [u8;4]/u32 newtypes (each validated by a Kani h_assume_* harness against real core). CIDR text parsing (std::net::Ipv4Addr::from_str) is not decided. `impl From<(Ipv4Address,Ipv4Mask)> for Ipv4Net` is not under contract.",
+        "level_text": "Route lookup: IpTable::get_recipient is verified (Verus, real loop over BTreeMap::iter with vstd's BTreeMap specification) to return the value of the longest-mask network containing the address, None iff none; add/remove/add_direct/remove_direct are Map insert/remove on the abstract view (so order of insertion is irrelevant and adding twice replaces); Obm::cmp is verified against mask-descending-then-id order and shown to be a lawful total order. Mask/network arithmetic: every function of Ipv4Mask / Ipv4Net / Ipv4Address carries a postcondition against the interval [id, broadcast] semantics, discharged by Verus for all inputs and re-proved by loop-free Kani harnesses on the compiled crate.",
+        "level_note": "Trusted: Verus/Z3, Kani/CBMC; assumed specs of u32::{to,from}_be_bytes, count_ones, Result::or, RangeInclusive::{start,end,==}, derive(PartialEq/Ord) on the [u8;4]/u32 newtypes (each validated by a Kani h_assume_* harness against real core). vstd's opaque key_obeys_cmp_spec::<Obm>() is assumed (its content - Obm::cmp equals a lawful total order - is proved); IpTable::iter()'s one-line map adapter is inlined by a declared rewrite. add_cidr/remove_cidr/default_gateway and the FromIterator impls are not under contract. CIDR text parsing (std::net::Ipv4Addr::from_str) is not decided. `impl From<(Ipv4Address,Ipv4Mask)> for Ipv4Net` is not under contract.",
         "assumptions": ["Ipv4Mask values are only built by from_bitcount/try_from (private field) so mask.wf() is a type invariant", "CIDR text clause undecided"],
         "explanation": "subnet arithmetic contracts; routing-table clause see ip_table obligations",
     },
